@@ -51,7 +51,8 @@ def check_text(case, ctx):
     bip39, BaseWallet, PaperWallet, Prv = _impl()
     m, pw, testnet = case["m"], case["pw"], case["testnet"]
     want = R39.seed(m, pw)
-    st_, got = call(bip39.bip39_seed_from_mnemonic, m, pw)
+    st_, got = call(bip39.bip39_seed_from_mnemonic, mnemonic=m, password=pw) if case["paper"] else \
+        call(bip39.bip39_seed_from_mnemonic, m, pw)
     if st_ == "exc":
         raise Violation("C03/seed/raised", "bip39_seed_from_mnemonic(%r, %r) raised %r" % (m, pw, got))
     if got != want:
@@ -74,7 +75,7 @@ def check_text(case, ctx):
     except R.Invalid:
         return
     cls = PaperWallet if case["paper"] else BaseWallet
-    st_, w = call(cls.from_mnemonic, m, pw, testnet)
+    st_, w = call(cls.from_mnemonic, mnemonic=m, password=pw, testnet=testnet) if testnet else call(cls.from_mnemonic, m, pw, testnet)
     if st_ == "exc":
         raise Violation("C03/wallet/raised", "from_mnemonic(%r, %r) raised %r" % (m, pw, w))
     master_matches("C03/wallet", "from_mnemonic(%r, %r, testnet=%s)" % (m, pw, testnet), w.master, rm, testnet)
